@@ -323,7 +323,7 @@ def _run(w, plan):
             return
         kind = o["kind"]
         rec = {"id": o["id"], "kind": kind, "o": o, "t": sim.now, "seq": len(sim.log), "w": None, "payloads": None, "after_close": state["closed"],
-               "cache_at_call": len(cache_versions) - 1, "timers_before": len([dc for dc in reactor.pending("client.py")]),
+               "clients_before": dict(client.clients or {}), "cache_at_call": len(cache_versions) - 1, "timers_before": len([dc for dc in reactor.pending("client.py")]),
                "versions_known": client._api_versions is not None}
         calls[o["id"]] = rec
         sim.record("op", "call", o["id"], kind)
@@ -391,7 +391,9 @@ def _run(w, plan):
                     except Exception as e:
                         rec.setdefault("iter_errors", []).append(type(e).__name__)
             if rec["kind"] == "metadata_all" and wd.ok and client.clients is not None:
-                rec["clients_after"] = sorted(client.clients)  # right after the merge, before anything else can run
+                # broker clients that existed when the refresh was asked for and are still the same objects right after the
+                # merge (a request in progress may legitimately open a *new* client for an address it still knows)
+                rec["clients_after"] = sorted(n for n, o in rec.get("clients_before", {}).items() if client.clients.get(n) is o)
             rec["t_done"] = wd.t
             rec["seq_done"] = wd.seq
             rec["timers_at_done"] = len(reactor.pending("client.py"))
